@@ -134,7 +134,38 @@ type Cfg struct {
 	Chunk    uint64  `json:"chunk"`                // how stdin is delivered
 	Twice    bool    `json:"twice"`                // run a second time on the same Interpreter
 	BadShell bool    `json:"bad_shell,omitempty"`  // NoExec off, but Config.ShellCommand names a program that does not exist: every process start fails
+	OutK     int     `json:"out_kind,omitempty"`   // dynamic type of Config.Output (see outOf): 0 pointer, 1 func, 2 struct with a slice, 3-5 by-value wrappers around those
+	ErrSame  bool    `json:"err_same,omitempty"`   // Config.Error is the same value as Config.Output (otherwise io.Discard)
 	StdinK   int     `json:"stdin_kind,omitempty"` // dynamic type of Config.Stdin: 0 *ChunkReader, 1 a func type with Read and Close (not comparable), 2 a struct value holding a slice (not comparable) with Read and Close, 3 *os.File-like ReadCloser pointer
+}
+
+// Writers of unusual dynamic types: Config.Output and Config.Error are io.Writers; goawk compares them (to find out
+// whether a child process shares the program's writer), and comparing interface values panics when the dynamic
+// types are the same and hold something uncomparable -- directly or, for a by-value wrapper, one level down.
+type funcWriter func(p []byte) (int, error)
+
+func (f funcWriter) Write(p []byte) (int, error) { return f(p) }
+
+type sliceWriter struct {
+	parts []io.Writer
+}
+
+func (w sliceWriter) Write(p []byte) (int, error) { return w.parts[0].Write(p) }
+
+func outOf(kind int, w io.Writer) io.Writer {
+	switch kind {
+	case 1:
+		return funcWriter(w.Write)
+	case 2:
+		return sliceWriter{parts: []io.Writer{w}}
+	case 3:
+		return struct{ io.Writer }{funcWriter(w.Write)} // comparable static type, uncomparable content
+	case 4:
+		return struct{ io.Writer }{sliceWriter{parts: []io.Writer{w}}}
+	case 5:
+		return struct{ io.Writer }{w}
+	}
+	return w
 }
 
 // Readers of unusual dynamic types: Config.Stdin is an io.Reader, and nothing says its dynamic type is comparable.
@@ -181,6 +212,7 @@ var inputs = []string{
 func genCfg(t *rapid.T) Cfg {
 	c := Cfg{Chars: rapid.Bool().Draw(t, "chars"), Mode: rapid.SampledFrom([]string{"", "", "", "csv", "tsv", "csv-header"}).Draw(t, "mode"), Newline: rapid.IntRange(0, 2).Draw(t, "newline"),
 		NoReads: rapid.Bool().Draw(t, "noreads"), Chunk: rapid.Uint64().Draw(t, "chunk"), Twice: rapid.IntRange(0, 4).Draw(t, "twice") == 0,
+		OutK: rapid.SampledFrom([]int{0, 0, 0, 0, 0, 1, 2, 3, 4, 5}).Draw(t, "outkind"), ErrSame: rapid.IntRange(0, 2).Draw(t, "errsame") == 0,
 		StdinK: rapid.SampledFrom([]int{0, 0, 0, 0, 1, 2, 3}).Draw(t, "stdinkind"), BadShell: rapid.IntRange(0, 4).Draw(t, "badshell") == 0}
 	if rapid.IntRange(0, 3).Draw(t, "hasvars") == 0 {
 		name := rapid.SampledFrom([]string{"FS", "RS", "OFS", "CONVFMT", "OFMT", "NF", "ARGC", "INPUTMODE", "OUTPUTMODE", "SUBSEP", "x", "NR", "RSTART"}).Draw(t, "vname")
@@ -270,7 +302,12 @@ var dataFile = func() string {
 
 func mkConfig(c Cfg, input []byte, out io.Writer) *interp.Config {
 	vars := append(strs(c.Vars), "DATAFILE", dataFile)
-	cfg := &interp.Config{Stdin: stdinOf(c.StdinK, sandbox.NewChunkReader(input, sandbox.Chunking(len(input), c.Chunk))), Output: out, Error: io.Discard, Argv0: "goawk", Chars: c.Chars, Vars: vars, Args: strs(c.Args),
+	out = outOf(c.OutK, out)
+	var errw io.Writer = io.Discard
+	if c.ErrSame {
+		errw = out
+	}
+	cfg := &interp.Config{Stdin: stdinOf(c.StdinK, sandbox.NewChunkReader(input, sandbox.Chunking(len(input), c.Chunk))), Output: out, Error: errw, Argv0: "goawk", Chars: c.Chars, Vars: vars, Args: strs(c.Args),
 		NoExec: true, NoFileWrites: true, NoFileReads: c.NoReads, Environ: []string{"HOME", "/"}, NewlineOutput: interp.NewlineMode(c.Newline)}
 	if c.BadShell {
 		// nothing can actually be started: the paths taken when starting a process fails are exercised instead
